@@ -55,7 +55,7 @@ class Main(Suite):
     go_cmd = "c44"
     coq_imports = "From GoGit Require Import Model.DiffTree."
     quick_n = 200
-    thorough_n = 4000
+    thorough_n = 1500
     coq_chunk = 60
 
     def gen(self, rng, n, tier):
@@ -148,12 +148,14 @@ class Main(Suite):
                 got_from = sorted((f[0], (f[1], f[2])) for f, t in chs if f)
                 got_to = sorted((t[0], (t[1], t[2])) for f, t in chs if t)
                 why = None
+                def delta(want, got):
+                    import collections
+                    w, g = collections.Counter(want), collections.Counter(got)
+                    return "lost %r invented or used twice %r" % (sorted((w - g).elements())[:3], sorted((g - w).elements())[:3])
                 if got_from != want_from:
-                    why = "From sides are not the deletions+modifications of the plain diff: lost %r invented %r" % (
-                        [x for x in want_from if x not in got_from][:3], [x for x in got_from if x not in want_from][:3])
+                    why = "From sides are not the deletions+modifications of the plain diff: " + delta(want_from, got_from)
                 elif got_to != want_to:
-                    why = "To sides are not the insertions+modifications of the plain diff: lost %r invented %r" % (
-                        [x for x in want_to if x not in got_to][:3], [x for x in got_to if x not in want_to][:3])
+                    why = "To sides are not the insertions+modifications of the plain diff: " + delta(want_to, got_to)
                 else:
                     for f, t in chs:
                         if f and t and f[0] != t[0]:
@@ -177,15 +179,18 @@ class Main(Suite):
 class Renames(Main):
     name = "renames"
     quick_n = 160
-    thorough_n = 4000
+    thorough_n = 1500
 
     def gen(self, rng, n, tier):
         cases = []
-        buckets = [(3, "mixed"), (3, "same-content"), (2, "moved"), (2, "many-same"), (1, "unrelated"), (1, "mode-differs")]
+        buckets = [(3, "mixed"), (3, "same-content"), (2, "moved"), (2, "many-same"), (1, "unrelated"), (1, "mode-differs"),
+                   (3, "edited-move")]
         for _ in range(n):
             b = pick_weighted(rng, buckets)
             if b in ("moved", "many-same", "mode-differs"):
                 a, bb = self.moved(rng, b)
+            elif b == "edited-move":
+                a, bb = self.edited_move(rng)
             else:
                 a, bb = U.rand_tree_pair(rng, b)
             mode = pick_weighted(rng, [(3, "exact"), (2, "content")])
@@ -193,6 +198,25 @@ class Renames(Main):
             score = pick_weighted(rng, [(4, 60), (1, 0), (1, 30), (1, 100)])
             cases.append({"bucket": b, "mode": mode, "score": score, "limit": limit, "a": a, "b": bb})
         return cases
+
+    @staticmethod
+    def edited_move(rng):
+        """files renamed AND slightly edited (content-similarity phase), several similar candidates per file"""
+        base = [U.rand_text(rng, "long") for _ in range(rng.choice([1, 2, 2, 3]))]
+        names = [b"a.go", b"b.go", b"c.go", b"d.go", b"e.go", b"f.go", b"g.go"]
+        def side(k):
+            es = []
+            for n in rng.sample(names, k):
+                t = rng.choice(base)
+                if rng.random() < 0.8:
+                    t = U.mutate_text(rng, t)
+                es.append(U.F(n, t))
+            return es
+        a = side(rng.randrange(1, 5))
+        b = side(rng.randrange(1, 5))
+        if rng.random() < 0.5:
+            b = [U.D(b"pkg", b)]
+        return U.canon(a), U.canon(b)
 
     @staticmethod
     def moved(rng, bucket):
